@@ -53,12 +53,13 @@ impl SignatureConverter<'_> {
 
             // the type parameter was `Sized` (unless it said otherwise), `Self` is not:
             if to_self.1 && !self.deps_param_is_maybe_sized(deps_param) {
+                let core = &self.crate_idents.core;
                 entrait_sig
                     .sig
                     .generics
                     .make_where_clause()
                     .predicates
-                    .push(syn::parse_quote! { Self: Sized });
+                    .push(syn::parse_quote! { Self: ::#core::marker::Sized });
             }
         }
 
